@@ -19,6 +19,9 @@ structure Diff.WF (d : Diff) : Prop where
     a ∉ d.deployed.map (·.1) ∧ a ∉ d.replaced.map (·.1) ∧ a ∉ d.nonces.map (·.1)
   /-- class definitions supplied without declaration are those of contracts the diff deploys -/
   extraOK : ∀ c ∈ d.extraClasses, c ∈ d.deployed.map (·.2)
+  /-- no class hash is listed twice in the declared sections (the gateway's lists are sets; the
+  legacy `removeDeclaredClasses` fails on a duplicate, see `legacy_revert_duplicate_declaration`) -/
+  declNodup : d.classHashes.Nodup
 
 theorem nodupKeys_sound {β : Type} (l : List (Nat × β)) (h : nodupKeys l = true) : (l.map (·.1)).Nodup := by
   induction l with
@@ -36,8 +39,8 @@ theorem nodupKeys_sound {β : Type} (l : List (Nat × β)) (h : nodupKeys l = tr
 /-- the executable check implies the hypothesis of the theorems -/
 theorem Diff.wfb_sound (d : Diff) (h : d.wfb = true) : d.WF := by
   simp only [Diff.wfb, Bool.and_eq_true] at h
-  obtain ⟨⟨⟨⟨⟨⟨⟨⟨⟨h1, h2⟩, h3⟩, h4⟩, h5⟩, h6⟩, h7⟩, h8⟩, h9⟩, h10⟩ := h
-  refine ⟨nodupKeys_sound _ h1, ?_, nodupKeys_sound _ h3, nodupKeys_sound _ h4, nodupKeys_sound _ h5, ?_, ?_, ?_⟩
+  obtain ⟨⟨⟨⟨⟨⟨⟨⟨⟨⟨h1, h2⟩, h3⟩, h4⟩, h5⟩, h6⟩, h7⟩, h8⟩, h9⟩, h10⟩, h11⟩ := h
+  refine ⟨nodupKeys_sound _ h1, ?_, nodupKeys_sound _ h3, nodupKeys_sound _ h4, nodupKeys_sound _ h5, ?_, ?_, ?_, ?_⟩
   · intro p hp
     exact nodupKeys_sound _ (List.all_eq_true.mp h2 p hp)
   · intro a ha hr
@@ -64,6 +67,8 @@ theorem Diff.wfb_sound (d : Diff) (h : d.wfb = true) : d.WF := by
     have := List.all_eq_true.mp h10 c hc
     obtain ⟨p, hp, he⟩ := List.any_eq_true.mp this
     exact List.mem_map.mpr ⟨p, hp, by simpa using he⟩
+  · have := nodupKeys_sound _ h11
+    simpa [List.map_map, Function.comp_def] using this
 
 /-- the value a diff assigns to a history key (`writeHistory`: deployed is written after
 replaced) -/
